@@ -143,6 +143,7 @@ Definition g_add (a b : gv) : result gv :=
   match a, b with
   | V (PInt x), V (PInt y) => Ok (gint (x + y))
   | V (PBytes x), V (PBytes y) => Ok (gbytes (x ++ y)%list)
+  | V (PStr x), V (PStr y) => Ok (V (PStr (x ++ y)%list))
   | _, _ => Raise EType
   end.
 Definition g_sub (a b : gv) : result gv :=
@@ -207,6 +208,34 @@ Definition g_tab (t : list (string * list adef)) (a : gv) : result gv :=
   | V (PList _) => Raise EType
   | _ => Raise EKey
   end.
+
+(* int.from_bytes(b, "little") *)
+Definition g_int_from_le (a : gv) : result gv :=
+  match a with V (PBytes b) => Ok (gint (Z.of_N (uint_of_le b))) | _ => Raise EType end.
+
+(* f"{x}" for a str x, f"{n:02x}" for a non-negative int n *)
+Definition g_fmt_str (a : gv) : result gv :=
+  match a with V (PStr b) => Ok a | _ => Raise EOther end.
+Definition g_fmt_02x (a : gv) : result gv :=
+  match a with V (PInt z) => if z <? 0 then Raise EOther else Ok (gstr (hex02 (Z.to_N z))) | _ => Raise EOther end.
+
+(* key in UBX_CLASSES / UBX_CLASSES[key] *)
+Definition g_in_classes (a : gv) : result bool :=
+  match a with
+  | V (PBytes b) => Ok (match assoc_b b classes with Some _ => true | None => false end)
+  | V (PList _) => Raise EType
+  | _ => Ok false
+  end.
+Definition g_classes (a : gv) : result gv :=
+  match a with
+  | V (PBytes b) => match assoc_b b classes with Some n => Ok (gstr n) | None => Raise EKey end
+  | V (PList _) => Raise EType
+  | _ => Raise EKey
+  end.
+
+(* try: r  except <e>: h   where both sides end by handing over the variables that are live afterwards *)
+Definition g_try {S : Type} (r : result S) (e : exn) (h : result S) : result S :=
+  match r with Raise e' => if exn_eqb e e' then h else Raise e' | Ok s => Ok s end.
 
 (* try: r  except <e>: h   (r is everything the try body does, h the handler) *)
 Definition g_catch (r : result gv) (e : exn) (h : result gv) : result gv :=
